@@ -787,7 +787,6 @@ Section DebtProgs.
   Definition wf_op (o : op) : Prop :=
     match o with
     | OpRelease ((a, oh) :: t) _ => wf_rel (block_of cf a) ((a, oh) :: t)
-    | OpAutoAssignM _ _ _ _ _ | OpAssignIPM _ _ _ _ _ => False   (* MaxAlloc operations are outside the ledger theorems *)
     | _ => True
     end.
 
@@ -905,6 +904,182 @@ Section DebtProgs.
   Proof. intros [-> _] ? ?; reflexivity. Qed.
 
   (* every operation of the fixed code gives the debt back *)
+  (* ---------------------------------------------------------------- MaxAllocToHandlePerIPVersion (ModelV.v, OpsM) *)
+  Lemma d_inc_handle_m fuel : forall nb d H h c n ma,
+    sD nb d H (inc_handle_m fuel h c n ma)
+       (fun _ d' _ r => match r with IOk => d' = dadd d h c n | _ => d' = d end).
+  Proof.
+    induction fuel as [|f IH]; intros nb d H h c n ma; simpl; [reflexivity|].
+    dsb d_get_handle. destruct P as [-> P]. destruct r as [[m rev]|e].
+    - dif; [dret|]. destruct P as [KH _]. destruct (hinc_spec m c n (proj2 KH)) as [SM HC].
+      dsb d_update_handle; [exact KH | exact SM | apply dadd_hdelta; exact HC |].
+      destruct r as [u|e]; [dret|]. destruct P as [-> _]. apply IH.
+    - destruct e; try dret. dif; [dret|].
+      destruct (hinc_spec [] c n I) as [SM HC].
+      dsb d_create_handle; [exact SM | apply dadd_hdelta; exact HC |].
+      destruct r as [u|e]; [dret|]. subst. apply IH.
+  Qed.
+
+  Lemma d_ibh_blocks cs : forall nb d H h acc, sD nb d H (ibh_blocks cs h acc) (Peq d Tr).
+  Proof.
+    induction cs as [|c t IH]; intros nb d H h acc; simpl; [split; auto; exact I|].
+    dsb d_get_block. destruct P as [-> _]. destruct r as [[b rev]|e]; apply IH.
+  Qed.
+
+  Lemma d_handle_max nb d H h num hint : sD nb d H (handle_max h num hint) (Peq d Tr).
+  Proof.
+    unfold handle_max, ips_by_handle.
+    eapply safeD_bind with (P := Peq d (@Tr (res (list N)))).
+    - dsb d_get_handle. destruct P as [-> _]. destruct r as [[m rev]|e]; [|dret].
+      dsb d_ibh_blocks. destruct P as [-> _]. dret.
+    - cbv beta. intros nb1 d1 H1 r LE E [-> _]. destruct r as [ips|e]; [|dret]. dif; dret.
+  Qed.
+
+  Lemma d_assign_from_block_m nb d H b rev c num h tag host ac ma :
+    known2 H c b rev -> (nb + 2 <= R)%nat ->
+    sD nb d H (assign_from_block_m cf (b, rev) c num h tag host ac ma) (Peq d Tr).
+  Proof.
+    intros KN BUD. unfold assign_from_block_m.
+    destruct (blk_auto_assign b num h tag ac host) as [[b' ips]|] eqn:AA; [|dret].
+    destruct ips as [|a0 ips']; [dret|].
+    remember (a0 :: ips') as ips.
+    set (n := N.of_nat (length ips)).
+    assert (POS : (0 < n)%N) by (unfold n; subst ips; simpl; lia).
+    destruct KN as (KH & IB & CB & LB).
+    destruct (blk_auto_assign_trans _ _ _ _ _ _ _ _ AA) as [BT _].
+    pose proof (blk_auto_assign_len _ _ _ _ _ _ _ _ AA) as LEN.
+    dsb d_inc_handle_m. destruct r as [|e|]; [|subst; dret|subst; dret]. subst d0.
+    assert (KN0 : known2 H0 c b rev) by (split; auto).
+    assert (BD : bdelta c (count_in_block b) (count_in_block b') (dadd d h c n) d).
+    { split.
+      - intros h'. rewrite (blk_auto_assign_count _ _ _ _ _ _ _ _ h' AA IB). unfold dadd, n.
+        rewrite N.eqb_refl, andb_true_r. destruct (N.eqb h' h); lia.
+      - intros h' c' NE. unfold dadd. destruct (N.eqb c' c) eqn:E'; [apply N.eqb_eq in E'; congruence|].
+        rewrite andb_false_r. reflexivity. }
+    dsbu KN0 BT LEN BD.
+    destruct r as [[b2 rev2]|e].
+    - destruct P as [-> _]. dret.
+    - subst d0. dsb (d_dec_handle R nb1 (dadd d h c n) d); [exact POS | reflexivity | simpl; unfold R in *; lia |].
+      destruct P as [-> _]. dret.
+  Qed.
+
+  Lemma d_assign_retry_m fuel : forall nb d H b rev c rem num h tag host ma hint,
+    known2 H c b rev -> (nb + 2 <= R)%nat ->
+    sD nb d H (assign_retry_m cf fuel (b, rev) c rem num h tag host ma hint) (Peq d Tr).
+  Proof.
+    induction fuel as [|f IH]; intros nb d H b rev c rem num h tag host ma hint KN BUD; simpl; [split; auto; exact I|].
+    dsb d_assign_from_block_m; [exact KN | exact BUD |]. destruct P as [-> _]. destruct r as [ips|e|].
+    - dret.
+    - destruct e; try dret.
+      dsb d_get_block. destruct P as [-> P]. destruct r as [[b' rev']|e]; [|dret]. apply IH; [exact P | lia].
+    - dsb d_handle_max. destruct P as [-> _]. destruct r as [ips|]; [dret|].
+      dsb d_get_block. destruct P as [-> P]. destruct r as [[b' rev']|e]; [|dret]. apply IH; [exact P | lia].
+  Qed.
+
+  Lemma d_na_try_m fuel : forall nb d H c rem num h tag host ma hint, (nb + 2 <= R)%nat ->
+    sD nb d H (na_try_m cf fuel c rem num h tag host ma hint) (Peq d Tr).
+  Proof.
+    induction fuel as [|f IH]; intros nb d H c rem num h tag host ma hint BUD; simpl; [split; auto; exact I|].
+    dsb d_get_block. destruct P as [-> P]. destruct r as [[b rev]|e]; [|dret].
+    dsb d_assign_from_block_m; [exact P | lia |]. destruct P0 as [-> _]. destruct r as [ips|e|].
+    - dret.
+    - destruct e; try dret. apply IH. lia.
+    - dsb d_handle_max. destruct P0 as [-> _]. destruct r as [ips|]; [dret | apply IH; lia].
+  Qed.
+
+  Lemma d_na_loop_m order : forall nb d H ips num h tag host ma hint, (nb + 2 <= R)%nat ->
+    sD nb d H (na_loop_m cf order ips num h tag host ma hint) (Peq d Tr).
+  Proof.
+    induction order as [|c rest IH]; intros nb d H ips num h tag host ma hint BUD; simpl; [split; auto; exact I|].
+    dif; [dret|]. dsb d_na_try_m; [exact BUD|]. destruct P as [-> _]. dif; [dret | apply IH; lia].
+  Qed.
+
+  Lemma d_aa_loop_m fuel : forall nb d H ips rem_aff owned num h tag host ma hint, (nb + 2 <= R)%nat ->
+    sD nb d H (aa_loop_m cf fx fuel ips rem_aff owned num h tag host ma hint) (Peq d Tr).
+  Proof.
+    induction fuel as [|f IH]; intros nb d H ips rem_aff owned num h tag host ma hint BUD; simpl.
+    - dif; dret.
+    - dif; [dret|].
+      dsb d_find_or_claim. destruct P as [-> P]. destruct r as [[[[[b rev] c] newly]|e] rem'].
+      + dsb d_assign_retry_m; [exact P | lia |]. destruct P0 as [-> _]. apply IH. lia.
+      + destruct e; try dret. dif; [|dret]. dsb d_na_loop_m; [lia|]. destruct P0 as [-> _]. dret.
+  Qed.
+
+  Lemma d_auto_assign_m nb d H host h tag num ma hint : (nb + 2 <= R)%nat ->
+    sD nb d H (auto_assign_m cf fx host h tag num ma hint) (Peq d Tr).
+  Proof.
+    intros BUD. unfold auto_assign_m. apply safeD_act; [exact I|]. intros H' rs E HO OK EN NB. exists d.
+    split; [destruct rs; reflexivity|]. destruct rs; try dret. apply d_aa_loop_m. simpl. exact BUD.
+  Qed.
+
+  Lemma d_assign_ip_loop_m fuel : forall nb d H host h tag a ma hint, (nb + 2 <= R)%nat ->
+    sD nb d H (assign_ip_loop_m cf fx fuel host h tag a ma hint) (Peq d Tr).
+  Proof.
+    induction fuel as [|f IH]; intros nb d H host h tag a ma hint BUD; simpl; [split; auto; exact I|].
+    set (c := block_of cf a).
+    assert (CONT : forall nb1 H1 b brev, (nb1 <= nb)%nat -> known2 H1 c b brev ->
+      sD nb1 d H1
+         (match blk_assign b a h tag (cf_strict cf) host with
+          | inr EExists =>
+              match owner_of b (ordinal_of b a) with
+              | Some x => if optN_eqb (at_handle x) (Some h) then Ret (ResErr ENone) else Ret (ResErr EExists)
+              | None => Ret (ResErr EExists)
+              end
+          | inr e => Ret (ResErr (nz e))
+          | inl b' =>
+              i <- inc_handle_m (cf_retries cf) h c 1 ma ;;
+              match i with
+              | IMax =>
+                  hm <- handle_max h 1 hint ;;
+                  match hm with
+                  | None => assign_ip_loop_m cf fx f host h tag a ma hint
+                  | Some ips => if existsb (N.eqb a) ips then Ret (ResErr ENone) else Ret (ResErr EOther)
+                  end
+              | IErr _ => Ret (ResErr EOther)
+              | IOk =>
+                  w <- update_block c b' brev ;;
+                  match w with
+                  | inl _ => Ret (ResErr ENone)
+                  | inr EConflict =>
+                      u_ <- dec_handle false (cf_retries cf) h c 1 None ;; assign_ip_loop_m cf fx f host h tag a ma hint
+                  | inr e => u_ <- dec_handle false (cf_retries cf) h c 1 None ;; Ret (ResErr (nz e))
+                  end
+              end
+          end) (Peq d Tr)).
+    { intros nb1 H1 b brev LE1 KN.
+      destruct (blk_assign b a h tag (cf_strict cf) host) as [b'|e] eqn:BA.
+      2:{ destruct e; try dret. destruct (owner_of b (ordinal_of b a)); [dif|]; dret. }
+      destruct KN as (KH & IB & CB & LB).
+      assert (BT : btrans b b') by (destruct (blk_assign_trans _ _ _ _ _ _ _ BA) as [[X _]|[X _]]; exact X).
+      destruct (blk_assign_count _ _ _ _ _ _ _ h BA IB (ordinal_in_block b a CB LB)) as [LEN _].
+      dsb d_inc_handle_m. destruct r as [|e|].
+      - subst d0.
+        assert (KN0 : known2 H0 c b brev) by (split; auto).
+        assert (BD : bdelta c (count_in_block b) (count_in_block b') (dadd d h c 1) d).
+        { split.
+          - intros h'. destruct (blk_assign_count _ _ _ _ _ _ _ h' BA IB (ordinal_in_block b a CB LB)) as [_ CNT].
+            rewrite CNT. unfold dadd. rewrite N.eqb_refl, andb_true_r. destruct (N.eqb h' h); lia.
+          - intros h' c' NE. unfold dadd. destruct (N.eqb c' c) eqn:E'; [apply N.eqb_eq in E'; congruence|].
+            rewrite andb_false_r. reflexivity. }
+        dsbu KN0 BT LEN BD. destruct r as [[b2 rev2]|e]; [destruct P as [-> _]; dret|]. subst d0.
+        assert (DEC : forall X : prog result, (forall nb3 H3, (nb3 <= nb2)%nat -> sD nb3 d H3 X (Peq d Tr)) ->
+                  sD nb2 (dadd d h c 1) H2 (u_ <- dec_handle false (cf_retries cf) h c 1 None ;; X) (Peq d Tr)).
+        { intros X SX. dsb (d_dec_handle (cf_retries cf) nb2 (dadd d h c 1) d); [lia | reflexivity | simpl; unfold R in *; lia |].
+          destruct P as [-> _]. apply SX. exact LE2. }
+        destruct e; try (apply DEC; intros; dret).
+        apply DEC. intros nb3 H3 L3. apply IH. lia.
+      - subst. dret.
+      - subst d0. dsb d_handle_max. destruct P as [-> _]. destruct r as [ips|]; [dif; dret | apply IH; lia]. }
+    dsb d_get_block. destruct P as [-> P]. destruct r as [[b brev]|e].
+    - apply CONT; auto.
+    - destruct e; try dret.
+      dsb d_get_pending_aff. destruct P0 as [-> _]. destruct r as [[st affrev]|e].
+      + dsb d_claim_affine_block. destruct P0 as [-> P0]. destruct r as [[b brev]|e].
+        * apply CONT; [lia | exact P0].
+        * destruct e; try dret. apply IH. lia.
+      + destruct e; try dret. apply IH. lia.
+  Qed.
+
   Theorem d_compile nb d H host o : wf_op o -> (nb + 2 <= R)%nat ->
     sD nb d H (compile_w cf fx true host o) (Pdq d).
   Proof.
@@ -915,8 +1090,8 @@ Section DebtProgs.
     - eapply (safeD_weaken _ _ _ _ (Peq d Tr)); [intros ? ? ? ? X; apply Peq_Pdq; exact X | apply d_release_by_handle; exact BUD].
     - eapply (safeD_weaken _ _ _ _ (Peq d Tr)); [intros ? ? ? ? X; apply Peq_Pdq; exact X | apply d_claim_aff_loop].
     - eapply (safeD_weaken _ _ _ _ (Peq d Tr)); [intros ? ? ? ? X; apply Peq_Pdq; exact X | apply d_release_aff_loop].
-    - destruct WF.
-    - destruct WF.
+    - eapply (safeD_weaken _ _ _ _ (Peq d Tr)); [intros ? ? ? ? X; apply Peq_Pdq; exact X | apply d_auto_assign_m; exact BUD].
+    - eapply (safeD_weaken _ _ _ _ (Peq d Tr)); [intros ? ? ? ? X; apply Peq_Pdq; exact X | apply d_assign_ip_loop_m; exact BUD].
   Qed.
 
   (* ================================================================== the same programs without any bound on the
@@ -1220,6 +1395,148 @@ Section DebtProgs.
   Lemma to_PT {A} nb d H (p : prog A) Q : sD nb d H p Q -> sD nb d H p PT.
   Proof. apply safeD_weaken. intros; exact I. Qed.
 
+  (* MaxAlloc programs, no bound on conflicts *)
+  Lemma u_assign_from_block_m nb d H b rev c num h tag host ac ma :
+    known2 H c b rev -> sD nb d H (assign_from_block_m cf (b, rev) c num h tag host ac ma) PT.
+  Proof.
+    intros KN. unfold assign_from_block_m.
+    destruct (blk_auto_assign b num h tag ac host) as [[b' ips]|] eqn:AA; [|uret].
+    destruct ips as [|a0 ips']; [uret|].
+    remember (a0 :: ips') as ips.
+    set (n := N.of_nat (length ips)).
+    assert (POS : (0 < n)%N) by (unfold n; subst ips; simpl; lia).
+    destruct KN as (KH & IB & CB & LB).
+    destruct (blk_auto_assign_trans _ _ _ _ _ _ _ _ AA) as [BT _].
+    pose proof (blk_auto_assign_len _ _ _ _ _ _ _ _ AA) as LEN.
+    dsb d_inc_handle_m. destruct r as [|e|]; [|uret|uret]. subst d0.
+    assert (KN0 : known2 H0 c b rev) by (split; auto).
+    assert (BD : bdelta c (count_in_block b) (count_in_block b') (dadd d h c n) d).
+    { split.
+      - intros h'. rewrite (blk_auto_assign_count _ _ _ _ _ _ _ _ h' AA IB). unfold dadd, n.
+        rewrite N.eqb_refl, andb_true_r. destruct (N.eqb h' h); lia.
+      - intros h' c' NE. unfold dadd. destruct (N.eqb c' c) eqn:E'; [apply N.eqb_eq in E'; congruence|].
+        rewrite andb_false_r. reflexivity. }
+    dsbu KN0 BT LEN BD.
+    destruct r as [[b2 rev2]|e]; [uret|]. subst d0.
+    dsb (u_dec_handle (cf_retries cf) nb1 (dadd d h c n)); [exact POS | unfold dadd; rewrite !N.eqb_refl; simpl; lia | exact I |].
+    uret.
+  Qed.
+
+  Lemma u_assign_retry_m fuel : forall nb d H b rev c rem num h tag host ma hint,
+    known2 H c b rev -> sD nb d H (assign_retry_m cf fuel (b, rev) c rem num h tag host ma hint) PT.
+  Proof.
+    induction fuel as [|f IH]; intros nb d H b rev c rem num h tag host ma hint KN; simpl; [exact I|].
+    dsb u_assign_from_block_m; [exact KN|]. destruct r as [ips|e|].
+    - uret.
+    - destruct e; try uret.
+      dsb d_get_block. destruct P0 as [-> P0]. destruct r as [[b' rev']|e]; [|uret]. apply IH. exact P0.
+    - dsb d_handle_max. destruct P0 as [-> _]. destruct r as [ips|]; [uret|].
+      dsb d_get_block. destruct P0 as [-> P0]. destruct r as [[b' rev']|e]; [|uret]. apply IH. exact P0.
+  Qed.
+
+  Lemma u_na_try_m fuel : forall nb d H c rem num h tag host ma hint,
+    sD nb d H (na_try_m cf fuel c rem num h tag host ma hint) PT.
+  Proof.
+    induction fuel as [|f IH]; intros nb d H c rem num h tag host ma hint; simpl; [exact I|].
+    dsb d_get_block. destruct P as [-> P]. destruct r as [[b rev]|e]; [|uret].
+    dsb u_assign_from_block_m; [exact P|]. destruct r as [ips|e|].
+    - uret.
+    - destruct e; try uret. apply IH.
+    - dsb d_handle_max. destruct P1 as [-> _]. destruct r as [ips|]; [uret | apply IH].
+  Qed.
+
+  Lemma u_na_loop_m order : forall nb d H ips num h tag host ma hint,
+    sD nb d H (na_loop_m cf order ips num h tag host ma hint) PT.
+  Proof.
+    induction order as [|c rest IH]; intros nb d H ips num h tag host ma hint; simpl; [exact I|].
+    dif; [uret|]. dsb u_na_try_m. dif; [uret | apply IH].
+  Qed.
+
+  Lemma u_aa_loop_m fuel : forall nb d H ips rem_aff owned num h tag host ma hint,
+    sD nb d H (aa_loop_m cf fx fuel ips rem_aff owned num h tag host ma hint) PT.
+  Proof.
+    induction fuel as [|f IH]; intros nb d H ips rem_aff owned num h tag host ma hint; simpl.
+    - dif; uret.
+    - dif; [uret|].
+      dsb d_find_or_claim. destruct P as [-> P]. destruct r as [[[[[b rev] c] newly]|e] rem'].
+      + dsb u_assign_retry_m; [exact P|]. apply IH.
+      + destruct e; try uret. dif; [|uret]. dsb u_na_loop_m. uret.
+  Qed.
+
+  Lemma u_auto_assign_m nb d H host h tag num ma hint : sD nb d H (auto_assign_m cf fx host h tag num ma hint) PT.
+  Proof.
+    unfold auto_assign_m. apply safeD_act; [exact I|]. intros H' rs E HO OK EN NB. exists d.
+    split; [destruct rs; reflexivity|]. destruct rs; try uret. apply u_aa_loop_m.
+  Qed.
+
+  Lemma u_assign_ip_loop_m fuel : forall nb d H host h tag a ma hint,
+    sD nb d H (assign_ip_loop_m cf fx fuel host h tag a ma hint) PT.
+  Proof.
+    induction fuel as [|f IH]; intros nb d H host h tag a ma hint; simpl; [exact I|].
+    set (c := block_of cf a).
+    assert (CONT : forall nb1 d1 H1 b brev, known2 H1 c b brev ->
+      sD nb1 d1 H1
+         (match blk_assign b a h tag (cf_strict cf) host with
+          | inr EExists =>
+              match owner_of b (ordinal_of b a) with
+              | Some x => if optN_eqb (at_handle x) (Some h) then Ret (ResErr ENone) else Ret (ResErr EExists)
+              | None => Ret (ResErr EExists)
+              end
+          | inr e => Ret (ResErr (nz e))
+          | inl b' =>
+              i <- inc_handle_m (cf_retries cf) h c 1 ma ;;
+              match i with
+              | IMax =>
+                  hm <- handle_max h 1 hint ;;
+                  match hm with
+                  | None => assign_ip_loop_m cf fx f host h tag a ma hint
+                  | Some ips => if existsb (N.eqb a) ips then Ret (ResErr ENone) else Ret (ResErr EOther)
+                  end
+              | IErr _ => Ret (ResErr EOther)
+              | IOk =>
+                  w <- update_block c b' brev ;;
+                  match w with
+                  | inl _ => Ret (ResErr ENone)
+                  | inr EConflict =>
+                      u_ <- dec_handle false (cf_retries cf) h c 1 None ;; assign_ip_loop_m cf fx f host h tag a ma hint
+                  | inr e => u_ <- dec_handle false (cf_retries cf) h c 1 None ;; Ret (ResErr (nz e))
+                  end
+              end
+          end) PT).
+    { intros nb1 d1 H1 b brev KN.
+      destruct (blk_assign b a h tag (cf_strict cf) host) as [b'|e] eqn:BA.
+      2:{ destruct e; try uret. destruct (owner_of b (ordinal_of b a)); [dif|]; uret. }
+      destruct KN as (KH & IB & CB & LB).
+      assert (BT : btrans b b') by (destruct (blk_assign_trans _ _ _ _ _ _ _ BA) as [[X _]|[X _]]; exact X).
+      destruct (blk_assign_count _ _ _ _ _ _ _ h BA IB (ordinal_in_block b a CB LB)) as [LEN _].
+      dsb d_inc_handle_m. destruct r as [|e|].
+      - subst d0.
+        assert (KN0 : known2 H0 c b brev) by (split; auto).
+        assert (BD : bdelta c (count_in_block b) (count_in_block b') (dadd d1 h c 1) d1).
+        { split.
+          - intros h'. destruct (blk_assign_count _ _ _ _ _ _ _ h' BA IB (ordinal_in_block b a CB LB)) as [_ CNT].
+            rewrite CNT. unfold dadd. rewrite N.eqb_refl, andb_true_r. destruct (N.eqb h' h); lia.
+          - intros h' c' NE. unfold dadd. destruct (N.eqb c' c) eqn:E'; [apply N.eqb_eq in E'; congruence|].
+            rewrite andb_false_r. reflexivity. }
+        dsbu KN0 BT LEN BD. destruct r as [[b2 rev2]|e]; [uret|]. subst d0.
+        assert (DEC : forall X : prog result, (forall nb3 d3 H3, sD nb3 d3 H3 X PT) ->
+                  sD nb2 (dadd d1 h c 1) H2 (u_ <- dec_handle false (cf_retries cf) h c 1 None ;; X) PT).
+        { intros X SX. dsb (u_dec_handle (cf_retries cf) nb2 (dadd d1 h c 1)); [lia | unfold dadd; rewrite !N.eqb_refl; simpl; lia | exact I |].
+          apply SX. }
+        destruct e; try (apply DEC; intros; uret).
+        apply DEC. intros. apply IH.
+      - uret.
+      - dsb d_handle_max. destruct r as [ips|]; [dif; uret | apply IH]. }
+    dsb d_get_block. destruct P as [-> P]. destruct r as [[b brev]|e].
+    - apply CONT; auto.
+    - destruct e; try uret.
+      dsb d_get_pending_aff. destruct P0 as [-> _]. destruct r as [[st affrev]|e].
+      + dsb d_claim_affine_block. destruct P0 as [-> P0]. destruct r as [[b brev]|e].
+        * apply CONT; exact P0.
+        * destruct e; try uret. apply IH.
+      + destruct e; try uret. apply IH.
+  Qed.
+
   Theorem u_compile nb d H host o : wf_op o -> sD nb d H (compile_w cf fx true host o) PT.
   Proof.
     intros WF. destruct o; unfold compile_w; cbv beta iota.
@@ -1229,7 +1546,7 @@ Section DebtProgs.
     - apply u_release_by_handle.
     - eapply to_PT. apply d_claim_aff_loop.
     - eapply to_PT. apply d_release_aff_loop.
-    - destruct WF.
-    - destruct WF.
+    - apply u_auto_assign_m.
+    - apply u_assign_ip_loop_m.
   Qed.
 End DebtProgs.
